@@ -56,6 +56,24 @@ class CallMixin(object):
                 qual = self.const_str(self.eval(st, e.args[0]))
                 expr = self.const_str(self.eval(st, e.args[1]))
                 return V(mkB(self.calls_satisfy(st, qual, expr, fr.contract)), parse_spec('bool'))
+            if n == 'forall_range':
+                lo = Val.i(self.eval(st, e.args[0]).t)
+                hi = Val.i(self.eval(st, e.args[1]).t)
+                lam = e.args[2]
+                if not isinstance(lam, pyast.Lambda) or len(lam.args.args) != 1:
+                    raise EngineError('forall_range expects a one-argument lambda')
+                k = fresh('q_' + lam.args.args[0].arg, IntS)
+                s2 = State(dict(st.vars), dict(st.heap), And(st.guard, lo <= k, k < hi))
+                s2.vars[lam.args.args[0].arg] = V(mkI(k), parse_spec('int'))
+                n_as = len(self.assumes)
+                body = self.truthy(s2, self.eval(s2, lam.body))
+                side = self.assumes[n_as:]
+                del self.assumes[n_as:]
+                # side facts discovered while evaluating the body (typing of loaded values) hold for every k in range
+                inner = z3.Implies(And(lo <= k, k < hi), z3.Implies(And(*side) if side else z3.BoolVal(True), body))
+                for sf in side:
+                    self.assumes.append(z3.ForAll([k], sf))
+                return V(mkB(z3.ForAll([k], inner)), parse_spec('bool'))
             if n == 'all_distinct':
                 lv = self.eval(st, e.args[0])
                 r = Val.r(lv.t)
